@@ -44,7 +44,7 @@ def fake_open(path, mode="r", *a, **k):
 ew.open = fake_open  # module global shadows the builtin inside earthkit/workflows/__init__.py
 repo_env.STUBS_IN_FORCE.append("in-memory open() for earthkit.workflows.Cascade.serialise/from_serialised (a file returns the bytes last written)")
 
-JSON_PAYLOADS = [None, 1, "p", [1, 2], {"k": 1}]
+JSON_PAYLOADS = [None, 1, "p", [1, 2], {"k": 1}, {"inputs": {"a": ["x", "y"]}, "outputs": ["o"]}]  # the last one looks like a serialised node
 PY_PAYLOADS = [None, ("t", 1), (len, ["x"], {"a": 1}), "p"]
 
 
